@@ -132,6 +132,12 @@ Proof. intros. unfold set_slot. apply (set_slot_go_upd g v i ds cur 0%nat); assu
 Lemma same_group_none d : same_group None d = false.
 Proof. reflexivity. Qed.
 
+Lemma upd_nth {A} (l : list A) : forall i dflt, upd i (nth i l dflt) l = l.
+Proof. induction l as [|a l IH]; intros [|i] dflt; cbn [upd nth]; auto. f_equal. apply IH. Qed.
+
+Lemma varint_len_pos t : (1 <= length (varint t))%nat.
+Proof. pose proof (varint_nonempty t). destruct (varint t); [congruence|cbn; lia]. Qed.
+
 (* ---------------------------------------------------------------------------------------------
    the round trip *)
 Section RT.
@@ -169,6 +175,9 @@ Proof.
   apply andb_true_iff in H. destruct H as [_ H]. apply list_pv_eqb_eq. exact H.
 Qed.
 
+Lemma app_length_le' {A} (a b : list A) : (length a <= length (a ++ b))%nat.
+Proof. rewrite app_length. lia. Qed.
+
 Lemma dec_fields_nil f ds cur : dec_fields Sc f ds cur [] = Some cur.
 Proof. destruct f; reflexivity. Qed.
 
@@ -191,72 +200,119 @@ Proof.
   rewrite C, Hfind. reflexivity.
 Qed.
 
-Section Slot.
-Variable n : nat.
-Hypothesis IHn : forall m fs,
-  (length (enc_fields Sc (mfields (msg Sc m)) fs) < n)%nat ->
-  canon_val Sc (TMsg m) (VMsg fs) = true ->
-  blen (enc_fields Sc (mfields (msg Sc m)) fs) < two64 ->
-  forall fuel, (length (enc_fields Sc (mfields (msg Sc m)) fs) <= fuel)%nat ->
-  dec_fields Sc fuel (mfields (msg Sc m)) (mdefault (msg Sc m)) (enc_fields Sc (mfields (msg Sc m)) fs) = Some fs.
-Variable ds : list fdesc.
-Hypothesis Hnodup : nodupN (map fnum ds) = true.
 
-Lemma nested_ok m fs f :
-  canon_val Sc (TMsg m) (VMsg fs) = true ->
-  (length (enc_val Sc (TMsg m) (VMsg fs)) < n)%nat ->
-  blen (enc_val Sc (TMsg m) (VMsg fs)) < two64 ->
-  (length (enc_val Sc (TMsg m) (VMsg fs)) <= f)%nat ->
-  dec_fields Sc f (mfields (msg Sc m)) (mdefault (msg Sc m)) (enc_val Sc (TMsg m) (VMsg fs)) = Some fs.
-Proof. rewrite enc_val_msg. intros. apply IHn; auto. Qed.
+(* ---- what dec_slot computes on one well-formed occurrence ---- *)
+Section DecSlot.
+Variable rec : nat -> list pv -> bytes -> option (list pv).
 
-Lemma canon_scalar_facts k x :
-  canon_val Sc (TScalar k) (VInt x) = true -> in_range k x = true.
-Proof. cbn [canon_val]. auto. Qed.
-
-Lemma is_zero_not_double k x : k <> SDouble -> is_zero k x = true -> x = 0.
-Proof. intros Hk H. destruct k; try congruence; cbn [is_zero] in H; apply N.eqb_eq in H; exact H. Qed.
-
-Lemma app_length_le {A} (a b : list A) : (length a <= length (a ++ b))%nat.
-Proof. rewrite app_length. lia. Qed.
-
-Lemma slot_step fuel rest cur pre d suf v :
-  ds = pre ++ d :: suf ->
-  field_ok d ->
-  (length ds = length cur)%nat ->
-  nth (length pre) cur VNone = default_slot Sc d ->
-  (forall g, fcd d = COneof g -> v <> VNone ->
-     forall k d', nth_error ds k = Some d' -> k <> length pre -> same_group (Some g) d' = true ->
-                  nth k cur VNone = VNone) ->
-  canon_slot Sc d v = true ->
-  (length (enc_slot Sc d v) <= n)%nat ->
-  blen (enc_slot Sc d v) < two64 ->
-  (length (enc_slot Sc d v ++ rest) <= fuel)%nat ->
-  exists fuel', (length rest <= fuel')%nat /\
-    dec_fields Sc fuel ds cur (enc_slot Sc d v ++ rest) = dec_fields Sc fuel' ds (upd (length pre) v cur) rest.
+Lemma dec_scalar_opt d old k x rest :
+  fcd d = COpt -> fty d = TScalar k -> in_range k x = true ->
+  dec_slot Sc rec d old (wire_of k) (enc_scalar k x ++ rest) = Some (VInt x, rest).
 Proof.
-  intros Hds (Hct & Hfn & Htm) Hlen Hnth Hgrp Hcan Hn Hb Hfuel.
-  assert (Hfind : find_field ds (fnum d) 0 = Some (length pre, d)).
-  { subst ds. apply (find_field_middle pre d suf 0%nat). exact Hnodup. }
-  assert (Hnone : forall x, set_slot ds None (length pre) x cur = upd (length pre) x cur).
-  { intros x. apply set_slot_upd; [|exact Hlen]. intros k d' _ _ H. discriminate H. }
-  assert (Hsame : upd (length pre) (default_slot Sc d) cur = cur).
-  { rewrite <- Hnth. clear - Hlen Hds. subst ds.
-    revert cur Hlen. induction pre as [|a p IH]; intros [|c cur] Hl; cbn in *; try lia; try reflexivity.
-    f_equal. apply IH. lia. }
-  unfold enc_slot, enc_slot_with, canon_slot, canon_slot_with in *.
-  destruct (fcd d) eqn:Hcd.
-  - (* COpt *)
-    destruct (fty d) eqn:Hty; destruct v; try discriminate Hcan.
-    + (* scalar *)
-      admit.
-    + admit.
-    + admit.
-    + admit.
-    + admit.
-  - admit.
-  - admit.
-  - admit.
-Admitted.
-End Slot.
+  intros Hcd Hty Hr. unfold dec_slot. rewrite Hcd, Hty, N.eqb_refl, scalar_roundtrip_l by exact Hr. reflexivity.
+Qed.
+
+Lemma dec_scalar_oneof d old g k x rest :
+  fcd d = COneof g -> fty d = TScalar k -> in_range k x = true ->
+  dec_slot Sc rec d old (wire_of k) (enc_scalar k x ++ rest) = Some (VSome (VInt x), rest).
+Proof.
+  intros Hcd Hty Hr. unfold dec_slot. rewrite Hcd, Hty, N.eqb_refl, scalar_roundtrip_l by exact Hr. reflexivity.
+Qed.
+
+Lemma dec_bytes_opt d old b rest :
+  fcd d = COpt -> fty d = TBytes \/ fty d = TStr -> blen b < two64 ->
+  dec_slot Sc rec d old 2 (varint (blen b) ++ b ++ rest) = Some (VBytes b, rest).
+Proof.
+  intros Hcd [Hty|Hty] Hb; unfold dec_slot; rewrite Hcd, Hty; cbn [N.eqb Pos.eqb];
+    rewrite read_ld_roundtrip_l by exact Hb; reflexivity.
+Qed.
+
+Lemma dec_bytes_oneof d old g b rest :
+  fcd d = COneof g -> fty d = TBytes \/ fty d = TStr -> blen b < two64 ->
+  dec_slot Sc rec d old 2 (varint (blen b) ++ b ++ rest) = Some (VSome (VBytes b), rest).
+Proof.
+  intros Hcd [Hty|Hty] Hb; unfold dec_slot; rewrite Hcd, Hty; cbn [N.eqb Pos.eqb];
+    rewrite read_ld_roundtrip_l by exact Hb; reflexivity.
+Qed.
+
+Lemma dec_bytes_rep d xs b rest :
+  fcd d = CRep -> fty d = TBytes \/ fty d = TStr -> blen b < two64 ->
+  dec_slot Sc rec d (VRep xs) 2 (varint (blen b) ++ b ++ rest) = Some (VRep (xs ++ [VBytes b]), rest).
+Proof.
+  intros Hcd [Hty|Hty] Hb; unfold dec_slot; rewrite Hcd, Hty; cbn [N.eqb Pos.eqb];
+    rewrite read_ld_roundtrip_l by exact Hb; reflexivity.
+Qed.
+
+Lemma dec_id_opt d old n0 b rest :
+  fcd d = COpt -> fty d = TId n0 -> blen b < two64 ->
+  (blen b =? 0) || ((blen b =? n0) && negb (all_zero b)) = true ->
+  dec_slot Sc rec d old 2 (varint (blen b) ++ b ++ rest) = Some (VBytes b, rest).
+Proof.
+  intros Hcd Hty Hb Hc. unfold dec_slot. rewrite Hcd, Hty. cbn [N.eqb Pos.eqb].
+  rewrite read_ld_roundtrip_l by exact Hb.
+  destruct (N.eqb_spec (blen b) 0) as [E|E].
+  - destruct b; [reflexivity|]. rewrite blen_cons in E. lia.
+  - cbn [orb] in Hc. apply andb_true_iff in Hc. destruct Hc as [H1 H2].
+    rewrite H1. apply negb_true_iff in H2. rewrite H2. reflexivity.
+Qed.
+
+Lemma dec_msg_opt d dfl m p fs rest :
+  fcd d = COpt -> fty d = TMsg m -> blen p < two64 ->
+  rec m dfl p = Some fs ->
+  dec_slot Sc rec d (VMsg dfl) 2 (varint (blen p) ++ p ++ rest) = Some (VMsg fs, rest).
+Proof.
+  intros Hcd Hty Hb Hrec. unfold dec_slot. rewrite Hcd, Hty. cbn [N.eqb Pos.eqb].
+  rewrite read_ld_roundtrip_l by exact Hb. rewrite Hrec. reflexivity.
+Qed.
+
+Lemma dec_msg_oneof d old g m p fs rest :
+  fcd d = COneof g -> fty d = TMsg m -> blen p < two64 ->
+  rec m (mdefault (msg Sc m)) p = Some fs ->
+  dec_slot Sc rec d old 2 (varint (blen p) ++ p ++ rest) = Some (VSome (VMsg fs), rest).
+Proof.
+  intros Hcd Hty Hb Hrec. unfold dec_slot. rewrite Hcd, Hty. cbn [N.eqb Pos.eqb].
+  rewrite read_ld_roundtrip_l by exact Hb. rewrite Hrec. reflexivity.
+Qed.
+
+Lemma dec_msg_rep d xs m p fs rest :
+  fcd d = CRep -> fty d = TMsg m -> blen p < two64 ->
+  rec m (mdefault (msg Sc m)) p = Some fs ->
+  dec_slot Sc rec d (VRep xs) 2 (varint (blen p) ++ p ++ rest) = Some (VRep (xs ++ [VMsg fs]), rest).
+Proof.
+  intros Hcd Hty Hb Hrec. unfold dec_slot. rewrite Hcd, Hty. cbn [N.eqb Pos.eqb].
+  rewrite read_ld_roundtrip_l by exact Hb. rewrite Hrec. reflexivity.
+Qed.
+
+Lemma dec_packed d xs k ns rest :
+  fcd d = CPacked -> fty d = TScalar k -> forallb (in_range k) ns = true ->
+  blen (flat_map (enc_scalar k) ns) < two64 ->
+  dec_slot Sc rec d (VRep xs) 2 (varint (blen (flat_map (enc_scalar k) ns)) ++ flat_map (enc_scalar k) ns ++ rest)
+  = Some (VRep (xs ++ map VInt ns), rest).
+Proof.
+  intros Hcd Hty Hr Hb. unfold dec_slot. rewrite Hcd, Hty.
+  assert (E : (2 =? wire_of k) = false) by (destruct k; reflexivity). rewrite E. cbn [N.eqb Pos.eqb].
+  rewrite varint_roundtrip_l by exact Hb.
+  destruct (N.leb_spec (blen (flat_map (enc_scalar k) ns)) (blen (flat_map (enc_scalar k) ns ++ rest))) as [_|Hc];
+    [|rewrite blen_app in Hc; lia].
+  rewrite read_packed_roundtrip_l; [reflexivity|exact Hr|apply app_length_le'].
+Qed.
+End DecSlot.
+
+
+Lemma flat_map_enc_scalar k ns :
+  flat_map (enc_val Sc (TScalar k)) (map VInt ns) = flat_map (enc_scalar k) ns.
+Proof. induction ns; cbn [map flat_map enc_val]; congruence. Qed.
+
+Lemma packed_values d k vs :
+  fty d = TScalar k ->
+  forallb (fun x => match fty d, x with TScalar _, VInt _ => canon_val Sc (fty d) x | _, _ => false end) vs = true ->
+  exists ns, vs = map VInt ns /\ forallb (in_range k) ns = true.
+Proof.
+  intros Hty. rewrite Hty. induction vs as [|x vs IH]; intros H.
+  - exists []. split; reflexivity.
+  - cbn [forallb] in H. apply andb_true_iff in H. destruct H as [H1 H2].
+    destruct (IH H2) as (ns & E & Hr). destruct x; try discriminate H1.
+    exists (n :: ns). split; [cbn; congruence|]. cbn [forallb]. cbn [canon_val] in H1. unfold canon_scalar in H1. rewrite H1, Hr. reflexivity.
+Qed.
+
 End RT.
